@@ -21,7 +21,7 @@ package tar
 
 // ---- visibility of entries: an entry is announced (Emit) only after its bytes were written completely ----
 //@ spec psOK(ps *pubsub) := ps != nil && ps.visited != nil && ps.subscribers != nil && ps.ctx != nil &&
-//@        forall(k, string, implies(in(k, dom(ps.subscribers)), forall(i, 0, len(ps.subscribers[k]), ps.subscribers[k][i] != nil)))
+//@        forall(k, string, implies(in(k, dom(ps.subscribers)), (ref(ps.subscribers[k]) == 0 || allocated(ref(ps.subscribers[k]))) && forall(i, 0, len(ps.subscribers[k]), ps.subscribers[k][i] != nil)))
 //@ spec announced(ps *pubsub, key string) := in(key, dom(ps.visited)) && ps.visited[key]
 //@ spec psReady(fs *ReaderFS) := psOK(fs.ps) && !held(fs.ps.mu)
 //@ spec othersAnnouncedSame(ps *pubsub, key string) := forall(k, string, implies(k != key, announced(ps, k) == old(announced(ps, k))))
@@ -39,7 +39,7 @@ package tar
 //@ func (ps *pubsub) Wait(key string)
 //@   props C12
 //@   requires psOK(ps) && !held(ps.mu)
-//@   modifies mapOf(ps.subscribers), held(ps.mu)
+//@   modifies mapOf(ps.subscribers), held(ps.mu), ghost("G|cancelled"), ghost("E|context.CancelFunc")
 //@   ensures "unlocked" !held(ps.mu) && psOK(ps)
 //@   ensures "table-untouched" [C12] forall(k, string, announced(ps, k) == old(announced(ps, k)))
 //@   nopanic
@@ -94,7 +94,7 @@ package tar
 //@ func (fs *ReaderFS) Open(name string) (f hackpadfs.File, err error)
 //@   props C12 C04 C05
 //@   requires fs != nil && fs.unarchiveFS != nil && psReady(fs) && fs.readerCtx != nil
-//@   modifies world(), mapOf(fs.ps.subscribers), held(fs.ps.mu)
+//@   modifies world(), mapOf(fs.ps.subscribers), held(fs.ps.mu), ghost("G|cancelled"), ghost("E|context.CancelFunc")
 //@   ensures "ps-ready" [C12] psReady(fs) && forall(k, string, announced(fs.ps, k) == old(announced(fs.ps, k)))
 //@   ensures "gate" [C04 C05] implies(!VP(name), f == nil && isPathError(err) && pathOf(err) == name && errIs(err, hackpadfs.ErrInvalid) && world() == old(world()))
 //@   ensures "unpack-failed" [C12] implies(VP(name) && recordedErr(fs) != nil, f == nil && isPathError(err) && pathOf(err) == name && opOf(err) == "open" && innerErr(err) == recordedErr(fs) && world() == old(world()))
@@ -199,7 +199,7 @@ package tar
 //@ func (fs *ReaderFS) readErr(r io.Reader) (err error)
 //@   props C12 C14
 //@   requires fs != nil && fs.unarchiveFS != nil && psReady(fs) && fs.callerCtx != nil && r != nil
-//@   modifies world(), mapOf(fs.ps.visited), mapOf(fs.ps.subscribers), held(fs.ps.mu)
+//@   modifies world(), mapOf(fs.ps.visited), mapOf(fs.ps.subscribers), held(fs.ps.mu), ghost("G|cancelled")
 //@   propagates [C12 C14] readProcessFile
 //@   propagates [C12 C14] Next unless e == io.EOF
 //@   propagates [C12 C14] recv
@@ -229,7 +229,7 @@ package tar
 //@   tracks readErr
 //@   callsite callerCancel requires "failure-recorded-before-waiters-are-released" implies(failed("readErr"), recordedErr(fs) != nil)
 //@   callsite readerDone requires "failure-recorded-before-done" implies(failed("readErr"), recordedErr(fs) != nil)
-//@   modifies world(), mapOf(fs.ps.visited), mapOf(fs.ps.subscribers), held(fs.ps.mu), gint("atomtag", fs.unarchiveErr), gint("atomval", fs.unarchiveErr), cancelled(fs.callerCtx), cancelled(fs.readerCtx)
+//@   modifies world(), mapOf(fs.ps.visited), mapOf(fs.ps.subscribers), held(fs.ps.mu), gint("atomtag", fs.unarchiveErr), gint("atomval", fs.unarchiveErr), ghost("G|cancelled")
 //@   ensures "failure-recorded" [C12 C14] implies(failed("readErr"), recordedErr(fs) != nil)
 //@   ensures "success-leaves-no-error" [C12] implies(!failed("readErr"), gint("atomtag", fs.unarchiveErr) == old(gint("atomtag", fs.unarchiveErr)) && gint("atomval", fs.unarchiveErr) == old(gint("atomval", fs.unarchiveErr)))
 //@   ensures "done" [C12] cancelled(fs.readerCtx) && cancelled(fs.callerCtx)
